@@ -54,8 +54,13 @@ func (zp *ZoneParser) generate(l lex) (RR, bool) {
 	}
 
 	// _BLANK
+	rangeLex := l
 	l, ok = zp.c.Next()
-	if !ok || l.value != zBlank {
+	if !ok {
+		// End of input: l carries no position.
+		return zp.setParseError("garbage after $GENERATE range", rangeLex)
+	}
+	if l.value != zBlank {
 		return zp.setParseError("garbage after $GENERATE range", l)
 	}
 
